@@ -10,8 +10,8 @@ from vlib import runner
 
 ID = "C03"
 MODULE = "PotasscoVerif.Props.C03"
-EXTRA_MODULES = ["PotasscoVerif.Lemmas.BufferedStream", "PotasscoVerif.Lemmas.AspifLang", "PotasscoVerif.Props.C03b", "PotasscoVerif.Props.C03c"]
-THEOREMS = ["PotasscoVerif.C03.C03_number_exact", "PotasscoVerif.C03.C03_reject_out_of_range", "PotasscoVerif.C03.C03_field_bounds",
+EXTRA_MODULES = ["PotasscoVerif.Lemmas.BufferedStream", "PotasscoVerif.Lemmas.AspifLang", "PotasscoVerif.Props.C03b", "PotasscoVerif.Props.C03c", "PotasscoVerif.Props.C03m"]
+THEOREMS = ["PotasscoVerif.C03m.C03_complete_steps", "PotasscoVerif.C03m.C03_sound_steps", "PotasscoVerif.C03m.C03_rejects_steps", "PotasscoVerif.C03.C03_number_exact", "PotasscoVerif.C03.C03_reject_out_of_range", "PotasscoVerif.C03.C03_field_bounds",
             "PotasscoVerif.C03.C03_error_once", "PotasscoVerif.Decimal.matchInt_token", "PotasscoVerif.BufferedStream.satVal_exact",
             "PotasscoVerif.C03.C03_line_bound", "PotasscoVerif.C03.C03_complete", "PotasscoVerif.C03.C03_sound", "PotasscoVerif.C03.C03_rejects",
             "PotasscoVerif.C03.C03_strict_lenient", "PotasscoVerif.C03.Spec.directive", "PotasscoVerif.C03.Spec.theory",
@@ -207,6 +207,23 @@ def evaluate(ctx, cases):
             ii = i.rsplit(" ", 1) if " " in i else ["", i]
             if mi[0] != ii[0] or mi[1][:2] != ii[1][:2]:
                 ctx.disagree("AspifInput:calls+status", cc, i[-800:], m[-800:])
+    _steps_stage(ctx, cases, lines)
+
+def _steps_stage(ctx, cases, lines):
+    """the reader driven step by step (accept, parse(Incremental) while more()): model AspifIn.readInc; C01_modes says both ways give the same"""
+    li = ["ar I " + c["text"] for c in cases]
+    mi_ = ctx.model(li); ii_ = ctx.impl(li, 4096); one = ctx.impl(lines, 4096)
+    for c, i, m, o in zip(cases, ii_, mi_, one):
+        if runner.is_oom(i) or runner.is_oom(o): continue
+        if not isinstance(i, str):
+            ctx.fail("C03:crash", "AspifInput crashed / sanitizer abort (step by step)", dict(c, mode="I"), {"stderr": i[2][-1500:]}); continue
+        ctx.dist["step-by-step reads"] += 1; ctx.compared += 1
+        a = m.rsplit(" ", 1) if " " in m else ["", m]; b = i.rsplit(" ", 1) if " " in i else ["", i]
+        if a[0] != b[0] or a[1][:2] != b[1][:2]: ctx.disagree("AspifInput:step-by-step", dict(c, mode="I"), i[-800:], m[-800:])
+        if isinstance(o, str):
+            d = o.rsplit(" ", 1) if " " in o else ["", o]
+            if d[0] != b[0] or d[1][:2] != b[1][:2]:
+                ctx.fail("C03:modes-differ", "reading step by step delivers other directives / another result than reading in one go", dict(c, mode="I"), {"one-go": o[-600:], "step-by-step": i[-600:]})
 
 def shrink_candidates(c):
     t = bytes.fromhex(c["text"]) if c["text"] != "-" else b""
